@@ -224,7 +224,7 @@ def run_check(prop, tier, seed):
     build_s = {}
     all_results, crashes, stalls, outdirs = [], [], [], []
     for prof in profiles:
-        if prof == "miri":
+        if prof in ("miri", "fuzz"):
             continue
         build_s[prof] = round(build(prof), 1)
     # the union-counting helper needs one native binary
@@ -232,6 +232,9 @@ def run_check(prop, tier, seed):
         if prof == "miri":
             res = run_miri(prop, tier, seed, meta)
             all_results += res
+            continue
+        if prof == "fuzz":
+            all_results += run_fuzz(prop, seed, meta)
             continue
         scale = meta.get("scale", {}).get(prof, 1.0)
         extra_env = None
@@ -290,6 +293,67 @@ def run_miri(prop, tier, seed, meta):
         else:
             raise Inconclusive("miri shard %d failed rc=%s: %s" % (i, p.returncode, txt[-800:]))
     return res
+
+
+def run_fuzz(prop, seed, meta):
+    """Coverage-guided supplement (libFuzzer + ASan through cargo-fuzz): same oracle as the
+    harness (no panic, no sanitizer report, size post-conditions), inputs found by coverage
+    feedback.  16 jobs, wall-time budget from props.py; a crash is a violation whose replay
+    is the artifact file."""
+    fdir = os.path.join(HARNESS, "fuzz")
+    outdir = os.path.join(RUN, prop, "thorough", "fuzz")
+    shutil.rmtree(outdir, ignore_errors=True)
+    corpus = os.path.join(outdir, "corpus")
+    os.makedirs(corpus, exist_ok=True)
+    art = os.path.join(fdir, "artifacts", "decode")
+    shutil.rmtree(art, ignore_errors=True)
+    lock = os.path.join(fdir, "Cargo.lock")
+    if not os.path.exists(lock) and os.path.exists("/repo/Cargo.lock"):
+        shutil.copy("/repo/Cargo.lock", lock)
+    # seed corpus: published vectors and reference-built messages from the harness
+    subprocess.run([binary("dev"), "corpus", "--out", corpus, "--seed", str(seed)], cwd=HARNESS, env=ENV,
+                   stdout=subprocess.DEVNULL, stderr=subprocess.DEVNULL)
+    secs = int(meta.get("fuzz_seconds", 120))
+    cmd = ["cargo", "+nightly", "fuzz", "run", "decode", corpus, "--", "-max_total_time=%d" % secs, "-timeout=10",
+           "-max_len=8192", "-jobs=%d" % NSHARDS, "-workers=%d" % NSHARDS, "-seed=%d" % (int(seed) + 1)]
+    env = dict(ENV)
+    r = subprocess.run(cmd, cwd=outdir if False else HARNESS, env=env, stdout=subprocess.PIPE, stderr=subprocess.STDOUT, text=True,
+                       timeout=secs * 4 + 900)
+    execs, logs = 0, ""
+    for f in sorted(os.listdir(HARNESS)):
+        if f.startswith("fuzz-") and f.endswith(".log"):
+            t = open(os.path.join(HARNESS, f), errors="replace").read()
+            logs += t[-3000:]
+            for line in t.splitlines():
+                if line.startswith("Done ") and " runs in " in line:
+                    try:
+                        execs += int(line.split()[1])
+                    except Exception:
+                        pass
+            os.remove(os.path.join(HARNESS, f))
+    crashes = sorted(os.listdir(art)) if os.path.isdir(art) else []
+    res = {"property": prop, "profile": "fuzz", "shard": 0, "evaluations": execs, "counters": {"fuzz.executions": execs, "fuzz.jobs": NSHARDS},
+           "samples": [], "notes": ["libFuzzer+ASan supplement: %d executions in %d jobs x %d s" % (execs, NSHARDS, secs)],
+           "exhaustive": {}, "violation_counts": {}, "violations": []}
+    if crashes:
+        panic = ""
+        for line in (r.stdout + logs).splitlines():
+            if "panicked at" in line or "ERROR: AddressSanitizer" in line or "ERROR: libFuzzer" in line:
+                panic = line.strip()
+                break
+        loc = panic
+        if "/stun-" in loc:
+            loc = "panic@" + loc[loc.index("/stun-") + 1:]
+        sig = "fuzz-crash:" + "".join(c if not c.isdigit() else "" for c in loc)[:100].replace(" ", "_")
+        keep = os.path.join(REPLAY, "%s-fuzz-%s" % (prop, crashes[0]))
+        os.makedirs(REPLAY, exist_ok=True)
+        shutil.copy(os.path.join(art, crashes[0]), keep)
+        res["violation_counts"][sig] = len(crashes)
+        res["violations"].append({"signature": sig, "detail": "libFuzzer found a crashing input (%s); artifact copied to %s; first byte = decoder/client options, rest = message bytes" % (panic, keep),
+                                  "stream": "fuzz", "case": 0, "witness": {"artifact": keep, "hex": open(keep, "rb").read()[:600].hex()}})
+    elif r.returncode != 0:
+        raise Inconclusive("cargo fuzz failed (rc=%s): %s" % (r.returncode, (r.stdout or "")[-800:]))
+    return [res]
 
 
 def first_ub_line(txt):
